@@ -9,6 +9,8 @@
                             the extracted [admissibleb], and prints the model's output for it (for the stable order
                             if none matches, which then shows up as a disagreement).
      stats.sb / stats_rel.sb   the extracted [stats_sb] on the parsed implementation output.
+     run / run_rel (.sb)    real Bencher runs: the harness prints the samples the run recorded and the statistics
+                            computed from them; model and specification are driven by the recording.
      periter(.sb)           the stored per-input counter value. *)
 
 let split_on c s = if s = "" then [] else String.split_on_char c s
@@ -199,6 +201,34 @@ let stats_check line =
       (List.nth ["?"; "panicked"; "time-figures-not-the-order-statistics"; "non-finite-field"; "counter-presence";
                  "means"; "provenance-column-not-from-one-sample"] why)
 
+(* ---- real runs: the harness prints "IN <recorded samples as a stats case> OUT <stats line>" ---- *)
+let split_in_out (i : string) : (string * string) option =
+  let key = " OUT " in
+  let lk = String.length key and li = String.length i in
+  if li < 3 || String.sub i 0 3 <> "IN " then None
+  else begin
+    let pos = ref (-1) in
+    (try
+       for k = 3 to li - lk do
+         if !pos < 0 && String.sub i k lk = key then begin pos := k; raise Exit end
+       done
+     with Exit -> ());
+    if !pos < 0 then None
+    else Some (String.sub i 3 (!pos - 3), String.sub i (!pos + lk) (li - !pos - lk))
+  end
+
+let run_mode dbg line =
+  let (_, i) = split_sb line in
+  match split_in_out i with
+  | Some (inner, out) -> "IN " ^ inner ^ " OUT " ^ stats_mode dbg (inner ^ "\t" ^ out)
+  | None -> "no-recording"
+
+let run_check line =
+  let (_, i) = split_sb line in
+  match split_in_out i with
+  | Some (inner, out) -> stats_check (inner ^ "\t" ^ out)
+  | None -> verdict false ("outcome:" ^ i)
+
 (* ---- per-input counter value ---- *)
 let periter line =
   match toks line with
@@ -226,6 +256,9 @@ let dispatch mode line =
   | "stats" -> stats_mode true line
   | "stats_rel" -> stats_mode false line
   | "stats.sb" | "stats_rel.sb" -> stats_check line
+  | "run" -> run_mode true line
+  | "run_rel" -> run_mode false line
+  | "run.sb" | "run_rel.sb" -> run_check line
   | "periter" | "periter_rel" -> periter line
   | "periter.sb" | "periter_rel.sb" -> periter_check line
   | _ -> failwith ("unknown mode " ^ mode)
